@@ -17,7 +17,7 @@ def sig_from_json(d):
 
 class C04(Prop):
     id = 'C04'
-    rule_added = '15% as modular specifications; half of the object re-uses put a failing call (one variable without numbers) between the two evaluations.'
+    rule_added = 'Re-use on signals that do not start at 0 (incl. consecutive recordings: the second set starts after the last stamp of the first) is compared with a fresh object on the same signals. 15% as modular specifications; half of the object re-uses put a failing call (one variable without numbers) between the two evaluations.'
     rule = ('random dense-time STL formulas (no prev/next/rise/fall; depth<=4; bounds multiples of 1/4) x 1..3 '
             'piecewise-constant signals with independent break-points (aligned, interleaved, single-sample, different '
             'first/last stamps; 1..8 samples each, stamps multiples of 1/4): a fresh spec evaluates them and the '
@@ -61,8 +61,15 @@ class C04(Prop):
                 # object re-use is only judged on signals that start at 0 (see judge): make that the common case
                 case['signals'] = sig_text(dict((k, lang.gen_signal(rng, start=Fr(0))) for k in names))
                 case['more'] = [sig_text(dict((k, lang.gen_signal(rng, start=Fr(0))) for k in names))]
-            else:
+            elif rng.random() < 0.5:
                 case['more'] = [sig_text(lang.gen_signals(rng, names))]
+            else:
+                # consecutive recordings: the second set of signals starts after the last stamp of the first
+                first = sig_from_json(case['signals'])
+                off = max(s[-1][0] for s in first.values()) + Fr(rng.randint(1, 8), 4)
+                nxt = lang.gen_signals(rng, names)
+                lo = min(s[0][0] for s in nxt.values())
+                case['more'] = [sig_text(dict((k, [(t - lo + off, val) for t, val in s]) for k, s in nxt.items()))]
             case['failing_between'] = rng.random() < 0.5 and len(names) >= 2
         if rng.random() < 0.1:
             case['useed'] = rng.randrange(1 << 30)
@@ -140,8 +147,14 @@ class C04(Prop):
             sig2 = sig_from_json(s2j)
             st2 = max(s[0][0] for s in sig2.values())
             en2 = min(s[-1][0] for s in sig2.values())
-            if en2 < st2 or set(s[0][0] for s in sig2.values()) != set([0]) or set(s[0][0] for s in sig.values()) != set([0]):
-                break              # keep this class away from the open finding D-dense-origin
+            if en2 < st2:
+                break
+            if set(s[0][0] for s in sig2.values()) != set([0]) or set(s[0][0] for s in sig.values()) != set([0]):
+                # signals that do not start at 0 are the territory of the open finding D-dense-origin, which is a
+                # deterministic function of the data: here the re-used object is compared with a FRESH object on the
+                # same signals (where they differ inside the common domain, one of the two is not rho)
+                self.reuse_vs_fresh(v, case, mon, sd, f, sig2, s2j, names, st2, en2, same, text)
+                break
             if case.get('failing_between'):
                 # a call that fails part-way in between (the last variable carries no numbers)
                 badargs = drive.ct_args(sig2, names)
@@ -171,6 +184,36 @@ class C04(Prop):
                 findings.c04_attribution(f, sig, 'origin', out, None))
         return v
 
+
+    def reuse_vs_fresh(self, v, case, mon, sd, f, sig2, s2j, names, st2, en2, same, text):
+        try:
+            exp2 = ref.evaluate(f, sig2)
+        except refd.Undefined:
+            return
+        try:
+            fresh = drive.Mon(case.get('kind', 'ct'), sd).evaluate(*drive.ct_args(sig2, names))
+        except Exception:
+            return                      # a first evaluation that raises is judged as a case of its own
+        try:
+            out2 = mon.evaluate(*drive.ct_args(sig2, names))
+        except Exception as e:
+            v.bad('reuse-raises:' + type(e).__name__, '%s: evaluate() of signals=%s raised %s on an object that had '
+                  'evaluated %s before; a fresh object returns normally' % (text, s2j, type(e).__name__, case['signals']))
+            return
+        v.info['reused-object-vs-fresh'] = v.info.get('reused-object-vs-fresh', 0) + 1
+        if bool(out2) != bool(fresh) or (out2 and fresh and out2[0][0] != fresh[0][0]):
+            v.bad('reuse-differs-from-fresh', '%s: on signals=%s an object that had evaluated %s before returns a result '
+                  'starting at %r, a fresh object one starting at %r' % (
+                      text, s2j, case['signals'], out2[0][0] if out2 else None, fresh[0][0] if fresh else None))
+            return
+        for t in ref.probe_times(exp2, list(out2) + list(fresh), st2, en2):
+            if exp2.at(t) != exp2.at(t):
+                continue
+            x, y = ref.out_value(out2, t), ref.out_value(fresh, t)
+            if (x is None) != (y is None) or (x is not None and not same(x, y)):
+                v.bad('reuse-differs-from-fresh', '%s: on signals=%s at t=%s an object that had evaluated %s before '
+                      'gives %r, a fresh object %r' % (text, s2j, float(t), case['signals'], x, y))
+                return
 
     def extra(self, ctx):
         """Enumerated part: every dense-time temporal operator x every interval with end points in
